@@ -110,6 +110,91 @@ func HLoad() {
 	}
 }
 
+// HLoadCorrupt: structured corrupt blocks that drive the decoders into their other error paths
+// (allocation budget, depth limit, huge declared lengths, truncation inside a string or a
+// number, trailing bytes) with free bytes at the deciding positions, against a link whose digest
+// is free: whatever the decoder thinks of the bytes, bytes that do not hash to the link are
+// reported as a hash mismatch and nothing is returned.
+func HLoadCorrupt() {
+	lsys.Register()
+	x := func(name string) byte { return nd.Byte(name) }
+	type tmpl struct {
+		codec uint64
+		s     []byte
+	}
+	rep := func(b byte, n int) []byte {
+		r := make([]byte, n)
+		for i := range r {
+			r[i] = b
+		}
+		return r
+	}
+	var t tmpl
+	switch nd.Choose("template", nd.Param("T", 12)) {
+	case 0: // list head with a free high length byte, ten small elements following
+		t = tmpl{0x71, append([]byte{0x9a, x("a"), 0x00, 0x00, x("d")}, rep(0x61, 10)...)}
+	case 1: // map head with a free 4-byte length
+		t = tmpl{0x71, []byte{0xba, x("a"), 0x00, 0x00, 0x01, 0x61, 0x61, x("v")}}
+	case 2: // bytes / string / list / map heads with 4-byte lengths
+		t = tmpl{0x71, []byte{x("h"), x("a"), 0x00, 0x00, 0x01, 0x41}}
+	case 3: // a free head byte in front of a ten-entry list body
+		t = tmpl{0x71, append([]byte{x("h")}, rep(0x01, 10)...)}
+	case 4: // nesting beyond the depth limit
+		t = tmpl{0x71, append(rep(0x81, 1030), x("leaf"))}
+	case 5: // a well-formed item and trailing bytes
+		t = tmpl{0x71, []byte{0x82, 0x01, 0x02, x("t1"), x("t2")}}
+	case 6: // dag-json: truncations and garbage inside and after a value
+		t = tmpl{0x0129, []byte{'{', '"', 'a', '"', ':', x("v"), x("w")}}
+	case 7:
+		t = tmpl{0x0129, append(rep('[', 1030), x("leaf"))}
+	case 8:
+		t = tmpl{0x0129, []byte{'"', '\\', x("e"), '0', '"'}}
+	case 9: // plain cbor, plain json, raw
+		t = tmpl{0x51, []byte{0x9a, x("a"), 0x00, 0x00, x("d"), 0x01}}
+	case 10:
+		t = tmpl{0x0200, []byte{'[', x("v"), ',', x("w")}}
+	case 11:
+		t = tmpl{0x55, []byte{x("a"), 0x00, x("c")}}
+	}
+	S := t.s
+	D := nd.Bytes("D", 2)
+	lnk := lsys.V1Link(t.codec, lsys.FoldCode, D)
+	fx, fs := lsys.Fold(S)
+	hashOK := nd.And(fx == D[0], fs == D[1])
+	ls := cidlink.DefaultLinkSystem()
+	rd := &lsys.Reader{S: S, FailAt: -1, Err: errInjected, Chunked: false, Eager: false}
+	ls.StorageReadOpener = func(linking.LinkContext, datamodel.Link) (io.Reader, error) { return rd, nil }
+	var n datamodel.Node
+	var rawb []byte
+	var err error
+	form := nd.Choose("form", 4)
+	nd.NoPanic("load", func() {
+		switch form {
+		case 0:
+			n, err = ls.Load(linking.LinkContext{}, lnk, basicnode.Prototype.Any)
+		case 1:
+			rawb, err = ls.LoadRaw(linking.LinkContext{}, lnk)
+		case 2:
+			n, rawb, err = ls.LoadPlusRaw(linking.LinkContext{}, lnk, basicnode.Prototype.Any)
+		case 3:
+			nb := basicnode.Prototype.Any.NewBuilder()
+			err = ls.Fill(linking.LinkContext{}, lnk, nb)
+		}
+	})
+	if err == nil {
+		nd.Reach("loaded")
+		nd.Assert(hashOK, "a load succeeds only if the stored bytes hash to the link")
+		if form == 1 || form == 2 {
+			nd.Assert(nd.EqBytes(rawb, S), "the raw bytes returned are the stored bytes")
+		}
+	} else {
+		nd.Reach("error")
+		nd.Assert(n == nil && (form == 2 || rawb == nil), "nothing is returned with an error")
+		_, isMismatch := err.(linking.ErrHashMismatch)
+		nd.Assert(nd.Implies(!hashOK, isMismatch), "bytes that do not hash to the link are reported as hash mismatch, whatever error the decoder met first")
+	}
+}
+
 type failWriter struct {
 	failAt int
 	n      int
